@@ -58,3 +58,7 @@ def member_of(cls, v):
 
 def type_is(v, t):
     return type(v) is t
+
+
+def exists_in(coll, f):
+    return coll is not None and any(f(x) for x in coll)
